@@ -2,6 +2,6 @@
 # Build the Lean project (theorems, models, native driver) offline; smoke-test the driver.
 set -e
 cd "$(dirname "$0")/lean"
-lake build PycsepVerif driver
+lake build PycsepVerif driver PycsepVerifSrc
 printf 'fl64 1/10\n' | .lake/build/bin/driver | grep -q '^3602879701896397/36028797018963968$'
 echo "setup ok"
